@@ -463,6 +463,8 @@ var redirectTargets = map[string]string{
 	"VerifStub_json_Unmarshal":           "encoding/json.Unmarshal",
 	"VerifStub_json_Marshal":             "encoding/json.Marshal",
 	"VerifStub_blockrelay_UnmarshalJSON": "github.com/attestantio/vouch/services/blockrelay.UnmarshalJSON",
+	// the REST daemon of the relay service opens a listening socket
+	"VerifStub_restdaemon_New": "github.com/attestantio/go-block-relay/services/daemon/rest.New",
 }
 
 func sortedKeys(m map[string]int) []string {
